@@ -76,12 +76,54 @@ func runCliGate(p *Program, r *RuleResult) {
 	}
 	tc := p.Func(processPkg, "Typecheck")
 	nDrivers, nStarts := 0, 0
+	// a function of a driver package that starts processes handed to it, parses nothing
+	// itself and is called from the driver (the execution part of a driver moved into a
+	// function of its own) is a start function for its callers
+	outside := func(fn *ssa.Function) bool {
+		pk := fn.Pkg
+		if pk == nil && fn.Parent() != nil {
+			pk = fn.Parent().Pkg
+		}
+		return pk != nil && pk.Pkg.Path() != processPkg && p.isFirstParty(fn)
+	}
+	starterHelper := map[*ssa.Function]bool{}
+	for changed := true; changed; {
+		changed = false
+		for _, fn := range p.SrcFuncs {
+			if !outside(fn) || fn.Parent() != nil || starts[fn] {
+				continue
+			}
+			startsSomething, parses := false, false
+			for _, c := range p.callsIn(fn) {
+				if starts[c.Common().StaticCallee()] {
+					startsSomething = true
+				}
+				if parseFns[c.Common().StaticCallee()] {
+					parses = true
+				}
+			}
+			if !startsSomething || parses {
+				continue
+			}
+			called := false
+			for _, caller := range p.SrcFuncs {
+				if outside(caller) && caller != fn && len(p.callsTo(caller, fn)) > 0 {
+					called = true
+				}
+			}
+			if called {
+				starts[fn] = true
+				starterHelper[fn] = true
+				changed = true
+			}
+		}
+	}
 	for _, fn := range p.SrcFuncs {
 		pk := fn.Pkg
 		if pk == nil && fn.Parent() != nil {
 			pk = fn.Parent().Pkg
 		}
-		if pk == nil || pk.Pkg.Path() == processPkg {
+		if pk == nil || pk.Pkg.Path() == processPkg || starterHelper[fn] {
 			continue
 		}
 		var startCalls []ssa.CallInstruction
@@ -321,6 +363,97 @@ func runTypecheckedFlag(p *Program, r *RuleResult) {
 	tc := p.Func(processPkg, "Typecheck")
 	reT := p.Named(processPkg, "RuntimeEnvironment")
 	n := 0
+	// avoiding: is there a path entry -> at in fn, consistent with v being true, that does not
+	// call Typecheck? When v is a parameter of fn the question moves to every call of fn.
+	var avoiding func(fn *ssa.Function, at ssa.Instruction, v ssa.Value, depth int) (bool, string)
+	avoiding = func(fn *ssa.Function, at ssa.Instruction, v ssa.Value, depth int) (bool, string) {
+		view := p.View(fn)
+		if k, isC := v.(*ssa.Const); isC && k.Value != nil && k.Value.Kind() == constant.Bool && !constant.BoolVal(k.Value) {
+			return false, ""
+		}
+		seen := map[*ssa.BasicBlock]bool{}
+		var walk func(b *ssa.BasicBlock) bool
+		walk = func(b *ssa.BasicBlock) bool {
+			if seen[b] {
+				return false
+			}
+			seen[b] = true
+			ins := view.Instrs(b)
+			for _, x := range ins {
+				if x == at {
+					return true
+				}
+				if c, ok := x.(*ssa.Call); ok && c.Common().StaticCallee() == tc {
+					return false
+				}
+			}
+			succs := view.Succs(b)
+			if len(ins) > 0 {
+				if iff, ok := ins[len(ins)-1].(*ssa.If); ok && len(b.Succs) == 2 {
+					if k, isC := iff.Cond.(*ssa.Const); isC && k.Value != nil && k.Value.Kind() == constant.Bool {
+						if constant.BoolVal(k.Value) {
+							succs = []*ssa.BasicBlock{b.Succs[0]}
+						} else {
+							succs = []*ssa.BasicBlock{b.Succs[1]}
+						}
+					} else if origin(iff.Cond) == origin(v) {
+						succs = []*ssa.BasicBlock{b.Succs[0]}
+					} else if un, ok := iff.Cond.(*ssa.UnOp); ok && un.Op == token.NOT && origin(un.X) == origin(v) {
+						succs = []*ssa.BasicBlock{b.Succs[1]}
+					}
+				}
+			}
+			for _, s := range succs {
+				// the stored value is a phi of s: coming in over an edge that carries
+				// the constant false, the value is not true on this path
+				if ph, isPhi := v.(*ssa.Phi); isPhi && ph.Block() == s {
+					skip := false
+					for i, pr := range s.Preds {
+						if pr == b {
+							if k, isC := ph.Edges[i].(*ssa.Const); isC && k.Value != nil && k.Value.Kind() == constant.Bool && !constant.BoolVal(k.Value) {
+								skip = true
+							}
+						}
+					}
+					if skip {
+						continue
+					}
+				}
+				if walk(s) {
+					return true
+				}
+			}
+			return false
+		}
+		if len(fn.Blocks) == 0 || !walk(fn.Blocks[0]) {
+			return false, ""
+		}
+		// a path inside fn avoids Typecheck: if the value is handed in, ask the callers
+		if prm, isPrm := origin(v).(*ssa.Parameter); isPrm && depth < 2 {
+			idx := -1
+			for i, q := range fn.Params {
+				if q == prm {
+					idx = i
+				}
+			}
+			sites := 0
+			for _, caller := range p.SrcFuncs {
+				for _, c := range p.callsTo(caller, fn) {
+					if idx < 0 || idx >= len(c.Common().Args) {
+						continue
+					}
+					sites++
+					if bad, where := avoiding(caller, c, c.Common().Args[idx], depth+1); bad {
+						return true, where
+					}
+				}
+			}
+			if sites > 0 {
+				return false, ""
+			}
+		}
+		return true, fmt.Sprintf("%s (%s)", fnName(fn), displayKey(v))
+	}
 	for _, fn := range p.SrcFuncs {
 		pk := fn.Pkg
 		if pk == nil && fn.Parent() != nil {
@@ -347,70 +480,9 @@ func runTypecheckedFlag(p *Program, r *RuleResult) {
 				n++
 				ord++
 				construct := fmt.Sprintf("typechecked-flag#%d", ord)
-				v := st.Val
-				if k, isC := v.(*ssa.Const); isC && k.Value != nil && k.Value.Kind() == constant.Bool && !constant.BoolVal(k.Value) {
-					r.add(fnName(fn), construct, Holds, p.instrPos(st), "the flag is constantly false")
-					continue
-				}
-				// a path entry -> store, consistent with v being true, that avoids Typecheck
-				seen := map[*ssa.BasicBlock]bool{}
-
-				var walk func(b *ssa.BasicBlock) bool
-				walk = func(b *ssa.BasicBlock) bool {
-					if seen[b] {
-						return false
-					}
-					seen[b] = true
-					ins := view.Instrs(b)
-					for _, x := range ins {
-						if x == ssa.Instruction(st) {
-							return true
-						}
-						if c, ok := x.(*ssa.Call); ok && c.Common().StaticCallee() == tc {
-							return false
-						}
-					}
-					succs := view.Succs(b)
-					if len(ins) > 0 {
-						if iff, ok := ins[len(ins)-1].(*ssa.If); ok && len(b.Succs) == 2 {
-							if k, isC := iff.Cond.(*ssa.Const); isC && k.Value != nil && k.Value.Kind() == constant.Bool {
-								if constant.BoolVal(k.Value) {
-									succs = []*ssa.BasicBlock{b.Succs[0]}
-								} else {
-									succs = []*ssa.BasicBlock{b.Succs[1]}
-								}
-							} else if origin(iff.Cond) == origin(v) {
-								succs = []*ssa.BasicBlock{b.Succs[0]}
-							} else if un, ok := iff.Cond.(*ssa.UnOp); ok && un.Op == token.NOT && origin(un.X) == origin(v) {
-								succs = []*ssa.BasicBlock{b.Succs[1]}
-							}
-						}
-					}
-					for _, s := range succs {
-						// the stored value is a phi of s: coming in over an edge that carries
-						// the constant false, the value is not true on this path
-						if ph, isPhi := v.(*ssa.Phi); isPhi && ph.Block() == s {
-							skip := false
-							for i, pr := range s.Preds {
-								if pr == b {
-									if k, isC := ph.Edges[i].(*ssa.Const); isC && k.Value != nil && k.Value.Kind() == constant.Bool && !constant.BoolVal(k.Value) {
-										skip = true
-									}
-								}
-							}
-							if skip {
-								continue
-							}
-						}
-						if walk(s) {
-							return true
-						}
-					}
-					return false
-				}
-				if len(fn.Blocks) > 0 && walk(fn.Blocks[0]) {
+				if bad, where := avoiding(fn, st, st.Val, 0); bad {
 					r.add(fnName(fn), construct, Violated, p.instrPos(st),
-						fmt.Sprintf("the flag is set to %s, and a path on which that is true reaches this store without calling process.Typecheck: the interpreter then trusts types nobody assigned", displayKey(v)))
+						fmt.Sprintf("the flag is set to %s, and a path on which that is true reaches this store without calling process.Typecheck (in %s): the interpreter then trusts types nobody assigned", displayKey(st.Val), where))
 				} else {
 					r.add(fnName(fn), construct, Holds, p.instrPos(st), "every path on which the stored value is true has called process.Typecheck")
 				}
